@@ -214,20 +214,49 @@ Theorem C12_kid_names_key :
 Proof. exact g_kid_names_key. Qed.
 Print Assumptions C12_kid_names_key.
 
+(* The per-upstream HMAC key (proxy_config.go generateHmacAuth): for EVERY algorithm name and secret
+   without ':' the key is the secret exactly as written — no case folding, no trimming — and the
+   configuration is accepted iff the algorithm is one of the accepted names, verbatim. *)
+Theorem C12_hmac_key_is_secret : forall algs alg secret,
+  ~ In 58 alg -> ~ In 58 secret ->
+  generate_hmac algs (alg ++ 58 :: secret) = if mem_str alg algs then HmacOn secret else HmacConfigError.
+Proof. exact generate_hmac_key. Qed.
+Print Assumptions C12_hmac_key_is_secret.
+
+(* "The documented variable SSO_CONFIG_{{SERVICE}}_SIGNING_KEY = algorithm:secret configures the key":
+   FALSE of the faithful model in general (known finding C12-K3: the lookup name is built from the
+   service name without lower-casing it, the variable names are lower-cased) ... *)
+Theorem C12_hmac_service_case_refuted :
+  exists w secret, doc_hmac w = HmacOn secret /\
+                   hmac_of_config (w_algs w) (w_service w) (w_environ w) = HmacOff.
+Proof. exists ex_world_k3, s_x. exact doc_hmac_case_witness. Qed.
+Print Assumptions C12_hmac_service_case_refuted.
+
+(* ... and proved for every world whose (cleaned) service name has no upper-case letter: the documented
+   rule — written independently in Corr_C12_defs.doc_hmac — and the code's rule agree on every
+   environment, every spec string and every set of accepted algorithms. *)
+Theorem C12_hmac_config_documented_partial : forall w : world,
+  lower_ascii (clean_ws (w_service w)) = clean_ws (w_service w) ->
+  doc_hmac w = hmac_of_config (w_algs w) (w_service w) (w_environ w).
+Proof. exact doc_hmac_agrees. Qed.
+Print Assumptions C12_hmac_config_documented_partial.
+
 (* The monitor that Corr_C12_defs.judge applies to the implementation's observations accepts the model's
    own prediction for every input satisfying the guards (so a falsifying observation is either a
-   difference between model and implementation, or one of the two refuted clauses). *)
+   difference between model and implementation, or one of the refuted clauses). [cfg_of_world w] ranges
+   over every configuration with a bare-host `to`, including inject_request_headers. *)
 Theorem C12_monitor_accepts_model :
-  forall c parsed ident r0 b,
-  bare_target c = true -> has_prefix (r_path r0) [47] = true -> r_fragment r0 = [] -> r_body r0 = Some b ->
+  forall w parsed ident r0 b,
+  let c := cfg_of_world w in
+  lower_ascii (clean_ws (w_service w)) = clean_ws (w_service w) ->
+  has_prefix (r_path r0) [47] = true -> r_fragment r0 = [] -> r_body r0 = Some b ->
   conn_safe all_protected (r_headers (at_sign_time c parsed ident r0)) = true ->
   cl_canonical (at_sign_time c parsed ident r0) = true ->
   let p := received gen_cov gen_covh c parsed ident loopback r0 in
   let recv := to_obs p in
   holds_rsa c recv (canon_rsa gen_cov (of_obs recv)) (verify_rsa gen_cov (published_certs c) p)
             (kid_published (published_certs c) p) = true /\
-  holds_hmac c recv (canon_hmac gen_covh (of_obs recv))
-             (match c_hmac c with Some k => verify_hmac gen_covh k p | None => 0 end) = true /\
+  holds_hmac w recv (canon_hmac gen_covh (of_obs recv)) (model_v_hmac w p) = true /\
   holds_body (body_bytes r0) recv = true.
 Proof. exact monitor_accepts_model. Qed.
 Print Assumptions C12_monitor_accepts_model.
